@@ -7,7 +7,8 @@
     * `defOK S ft df`   the definition's root/condition type exists and is composite and its
                         selection set is `setOK`: recursively, every response key begins with a letter
                         (or is the unaliased `__typename`), the Go field names of the members of one
-                        selection set are distinct (this excludes the findings F-20d/F-20e) and
+                        selection set are distinct — since fix 06 this is asked of the *fields* only, the holders' names are
+                        kept apart by the generator (`holders_distinct`); no fragment is spread twice in one set — and
                         the response keys are distinct ignoring letter case, a fragment inside an
                         object selection has a type condition the object satisfies, field types are
                         declared (what validation guarantees);
@@ -18,7 +19,8 @@
   "`__typename` is selected wherever fragments are applied to an interface or union" needs no
   hypothesis: without it `generate` reports an error (`typename_required`).
 -/
-import ApiFu.C20.LemTop2
+import ApiFu.C20.LemFinal
+import ApiFu.C20.LemMerge
 
 namespace ApiFu.C20
 
@@ -30,11 +32,8 @@ namespace ApiFu.C20
     documents of the same run. -/
 theorem invalid_no_output (S : Schema) (docs : List Doc) (h : ∃ d ∈ docs, d.valid = false) :
     ∃ errs, generate S docs = .error errs ∧ Err.validation ∈ errs := by
-  have hm := processDocs_validation_mem S docs {} h
-  unfold generate
-  cases he : (processDocs S docs {}).1 with
-  | nil => rw [he] at hm; cases hm
-  | cons e es => exact ⟨e :: es, by simp [he], by rw [← he]; exact hm⟩
+  obtain ⟨d, hd, hv⟩ := h
+  exact invalid_no_output_merged S _ ⟨normalizeDoc S d, List.mem_map.mpr ⟨d, hd, rfl⟩, by simpa [normalizeDoc] using hv⟩
 
 /-- Non-vacuity: a run with one valid and one invalid document yields exactly the validation error. -/
 example :
@@ -45,28 +44,26 @@ example :
 
 /-- **errors_no_output** — more generally: whenever any definition of the run is refused (validation
     error, missing `__typename`), nothing is emitted. -/
-theorem errors_no_output (S : Schema) (docs : List Doc) (h : (processDocs S docs {}).1 ≠ []) :
-    generate S docs = .error (processDocs S docs {}).1 := by
-  unfold generate
-  cases he : (processDocs S docs {}).1 with
-  | nil => exact absurd he h
-  | cons e es => simp [he]
+theorem errors_no_output (S : Schema) (docs : List Doc)
+    (h : (processDocs S (docs.map (normalizeDoc S)) {}).1 ≠ []) :
+    generate S docs = .error (processDocs S (docs.map (normalizeDoc S)) {}).1 :=
+  errors_no_output_merged S _ h
 
 /-- **typename_required** — a selection set on an interface or union that applies a fragment without
     selecting `__typename` directly is refused by the generator (so the envelope's "selects
     `__typename` wherever it applies fragments to an interface or union" is what the tool itself
     demands; nothing uncompilable is emitted for such operations). -/
-theorem typename_required (S : Schema) (ft : List (Name × Name)) (td : TypeDef) (hobj : td.isObject = false)
+theorem typename_required (S : Schema) (ft : List (Name × Name)) (td : TypeDef) (tbl : HolderTable) (hobj : td.isObject = false)
     (sels : List Sel) (htn : typenameFieldOf sels = none) (hfrag : ∃ s ∈ sels, isFieldSel s = false)
     (fields : Fields) (conds : Conds) (st : St) :
-    ∃ e, genSels S ft td (typenameFieldOf sels).isSome sels fields conds st = .error e := by
+    ∃ e, genSels S ft td tbl (typenameFieldOf sels).isSome sels fields conds st = .error e := by
   rw [htn]
   simp only [Option.isSome_none]
   induction sels generalizing fields conds st with
   | nil => obtain ⟨s, hs, _⟩ := hfrag; cases hs
   | cons s rest ih =>
     unfold genSels
-    cases hstep : genSel S ft td false s fields conds st with
+    cases hstep : genSel S ft td tbl false s fields conds st with
     | error e => exact ⟨e, rfl⟩
     | ok r =>
       obtain ⟨f1, c1, st1⟩ := r
@@ -89,113 +86,10 @@ theorem typename_required (S : Schema) (ft : List (Name × Name)) (td : TypeDef)
           | spread f => unfold typenameFieldOf at htn; exact htn
         exact ih htn' ⟨s', hs', hf'⟩ f1 c1 st1
 
-/-! ### Decoding the server's response -/
+/-! ### The output is well-formed (the model-level "compiles")
 
-/-- **decode_preserves_leaves** — for every schema, every run of the generator over documents inside
-    the envelope that produced output `out`, every named operation `name` of the run, and every JSON
-    value `data` that is a response to that operation (`opLeaves … = some L`: the shape the selection
-    demands, nulls only where the type allows them, `__typename` naming a possible type, fragments
-    unfolded to any depth `fuel`), whose objects have keys distinct ignoring letter case:
-
-      `json.Unmarshal(data, &v)` with `v : <name>Data` succeeds in the model of encoding/json over the
-      generated declarations, and the decoded value holds *every selected leaf* of the response —
-      scalars, enum values, nulls, empty lists, list items by index, and the fields of every
-      type-conditioned fragment (inline or named) whose type condition covers the object's
-      `__typename` — at its path, with the value the server sent.
-
-    (The full statement `leaves v = leaves data` of DESIGN.md is restricted to the *selected* leaves:
-    a response object may carry members merged in from sibling fragments that a given struct has no
-    field for; they are held by the sibling's holder, which this theorem covers as well.) -/
-theorem decode_preserves_leaves (S : Schema) (docs : List Doc) (out : Output)
-    (hS : schemaOK S = true)
-    (hgen : generate S docs = .ok out)
-    (hdocs : ∀ d ∈ docs, ∀ df ∈ d.defs, defOK S (fragTypesOf d.defs) df = true)
-    (hnames : nodupB (out.decls.map Decl.name) = true)
-    (doc : Doc) (hdoc : doc ∈ docs) (kind : OpKind) (name : Name) (sels : List Sel)
-    (hop : Def.op kind (some name) sels ∈ doc.defs)
-    (root : Name) (hroot : rootOf S kind = some root)
-    (fuel : Nat) (data : Json) (L : List LeafAt)
-    (hL : opLeaves S (fragDefsOf doc.defs) fuel root sels data = some L)
-    (hkeys : data.keysOK = true) :
-    ∃ v, Decodes out.decls (.named (name ++ n_Data)) data v ∧ ∀ x ∈ L, x ∈ leavesV v := by
-  have henv : EnvOK out.decls := envOK_of_nodup hnames
-  -- the run had no errors and `out.decls` is the final state
-  unfold generate at hgen
-  simp only at hgen
-  split at hgen
-  · rename_i herr
-    injection hgen with hgen
-    have hdecls : out.decls = (processDocs S docs {}).2.decls := by rw [← hgen]
-    have herr' : (processDocs S docs {}).1 = [] := by simpa using herr
-    have hinv0 : EnumInv ({} : St) := by intro n hn; cases hn
-    obtain ⟨_, _, _, hsem⟩ := processDocs_good hS henv docs {} hdocs herr' hinv0
-    have hall := (hsem (by intro d hd; rw [hdecls]; exact hd)).1 doc hdoc
-    have hfragHyp := fragHyp_fragLeaves (S := S) (env := out.decls) (defs := doc.defs) hall fuel
-    obtain ⟨r, td, ty, fwd, hr, hlk, hdecl, hlevel⟩ := hall _ hfragHyp _ hop
-    rw [hroot] at hr
-    injection hr with hr
-    subst hr
-    unfold opLeaves at hL
-    rw [hlk] at hL
-    cases td with
-    | object n fs is =>
-      cases data with
-      | obj kvs =>
-        simp only at hL
-        have hn : n = root := Schema.lookup_name hlk
-        subst hn
-        obtain ⟨hkd, hko⟩ := keysOK_obj hkeys
-        obtain ⟨ws, hd, hcov⟩ := hlevel n kvs L (fun _ => by simp [possible, TypeDef.name, hlk]) hL hkd hko
-        exact ⟨.struct ws, Decodes.typedef hdecl hd, by simpa [leavesV] using hcov⟩
-      | _ => simp at hL
-    | _ => simp at hL
-  · cases hgen
-
-/-! ### The output is well-formed (the model-level "compiles") -/
-
-/-- **gen_wf_partial** — for every run over documents inside the envelope that produced output, with
-    enum constants that do not collide (`enumValuesOK`, excludes F-20f) and provided the declared
-    identifiers of the output are pairwise distinct (`hnames`), the output is well-formed
-    (`declsWF`): every identifier a type expression mentions — enum types, `sel…` types, the
-    `<F>Fragment` type of every spread fragment — is declared; in every struct (of every `sel…` type,
-    of every `<Op>Data`/`<F>Fragment` type, at every nesting depth) the field names are exported and
-    pairwise distinct; and every statement of every generated `UnmarshalJSON` unmarshals into a
-    declared field and, when it is a `switch`, switches on a declared field of type `string` (the
-    field `__typename` was selected into, whatever its alias).
-
-    Full statement (DESIGN.md `gen_wf`): the same without `hnames`, see `gen_wf`, which needs
-    hypotheses on the names (operation/fragment names distinct, no enum/operation/fragment-derived
-    name beginning with `sel`). `hnames` is a decidable check on the output. -/
-theorem gen_wf_partial (S : Schema) (docs : List Doc) (out : Output)
-    (hS : schemaOK S = true) (hec : enumValuesOK S = true)
-    (hgen : generate S docs = .ok out)
-    (hdocs : ∀ d ∈ docs, ∀ df ∈ d.defs, defOK S (fragTypesOf d.defs) df = true)
-    (hnames : nodupB (out.decls.map Decl.name) = true) :
-    declsWF out.decls = true := by
-  have henv : EnvOK out.decls := envOK_of_nodup hnames
-  unfold generate at hgen
-  simp only at hgen
-  split at hgen
-  · rename_i herr
-    injection hgen with hgen
-    have hdecls : out.decls = (processDocs S docs {}).2.decls := by rw [← hgen]
-    have herr' : (processDocs S docs {}).1 = [] := by simpa using herr
-    have hinv0 : EnumInv ({} : St) := by intro n hn; cases hn
-    obtain ⟨_, _, htd, hsem⟩ := processDocs_good hS henv docs {} hdocs herr' hinv0
-    have hstatic := (hsem (by intro d hd; rw [hdecls]; exact hd)).2
-    have hfn : ∀ doc ∈ docs, FragNames (fragTypesOf doc.defs) (out.decls.map Decl.name) := by
-      intro doc hdoc f hf
-      obtain ⟨c, ss, hmem⟩ := fragTypes_any hf
-      have := htd doc hdoc _ hmem
-      rw [hdecls]
-      exact this
-    have hst := hstatic hfn hec (by intro d hd; cases hd)
-    simp only [declsWF, Bool.and_eq_true, hnames, true_and]
-    apply List.all_eq_true.mpr
-    intro d hd
-    rw [hdecls] at hd
-    exact hst d hd
-  · cases hgen
+  Hypotheses are stated on the documents *as `generateType` sees them* (`normalizeDoc`: inline
+  fragments with the same type condition merged, fix 07); they are decidable. -/
 
 /-- **gen_names_unique** — under the naming assumptions `NamesHyp` (no enum name and no
     `<Op>Data`/`<F>Fragment` name begins with `sel`; enum names differ from the `…Data`/`…Fragment`
@@ -207,42 +101,84 @@ theorem gen_wf_partial (S : Schema) (docs : List Doc) (out : Output)
 theorem gen_names_unique (S : Schema) (docs : List Doc) (out : Output)
     (hS : schemaOK S = true)
     (hgen : generate S docs = .ok out)
-    (hdocs : ∀ d ∈ docs, ∀ df ∈ d.defs, defOK S (fragTypesOf d.defs) df = true)
+    (hdocs : ∀ d ∈ docs.map (normalizeDoc S), ∀ df ∈ d.defs, defOK S (fragTypesOf d.defs) df = true)
     (hN : NamesHyp S (docNames docs)) (hnd : (docNames docs).Nodup) :
-    nodupB (out.decls.map Decl.name) = true := by
-  unfold generate at hgen
-  simp only at hgen
-  split at hgen
-  · rename_i herr
-    injection hgen with hgen
-    have hdecls : out.decls = (processDocs S docs {}).2.decls := by rw [← hgen]
-    have herr' : (processDocs S docs {}).1 = [] := by simpa using herr
-    have hinv0 : EnumInv ({} : St) := by intro n hn; cases hn
-    have h0 : NameInv S [] ({} : St) := ⟨List.nodup_nil, fun d hd => (nomatch hd)⟩
-    have := processDocs_names hS hN docs {} [] hdocs herr' hinv0 (by simp) (by simpa using hnd) h0
-    rw [hdecls]
-    exact (nodupB_iff _).mpr this.1
-  · cases hgen
+    nodupB (out.decls.map Decl.name) = true :=
+  gen_names_unique_merged S _ out hS hgen hdocs (by rw [docNames_normalize]; exact hN) (by rw [docNames_normalize]; exact hnd)
 
 /-- **gen_wf** — the generated declarations are well-formed (the model-level "the output compiles"),
     for every run over documents inside the envelope under the naming assumptions: every declared
-    identifier is declared exactly once, every referenced identifier is declared, struct fields are
-    exported and pairwise distinct at every depth, and every statement of every generated
+    identifier is declared exactly once, every referenced identifier (enum, `sel…`, `<F>Fragment`) is
+    declared, struct fields are exported and pairwise distinct at every depth — including the fragment
+    holders, whose names fix 06 keeps apart from the fields' (`holders_distinct`) —, enum constants are
+    pairwise distinct (fix 05, `enumConsts_nodup`), and every statement of every generated
     `UnmarshalJSON` names a declared field and switches on a declared `string` field. -/
 theorem gen_wf (S : Schema) (docs : List Doc) (out : Output)
     (hS : schemaOK S = true) (hec : enumValuesOK S = true)
     (hgen : generate S docs = .ok out)
-    (hdocs : ∀ d ∈ docs, ∀ df ∈ d.defs, defOK S (fragTypesOf d.defs) df = true)
+    (hdocs : ∀ d ∈ docs.map (normalizeDoc S), ∀ df ∈ d.defs, defOK S (fragTypesOf d.defs) df = true)
     (hN : NamesHyp S (docNames docs)) (hnd : (docNames docs).Nodup) :
     declsWF out.decls = true :=
-  gen_wf_partial S docs out hS hec hgen hdocs (gen_names_unique S docs out hS hgen hdocs hN hnd)
+  gen_wf_merged S _ out hS hec hgen hdocs (by rw [docNames_normalize]; exact hN) (by rw [docNames_normalize]; exact hnd)
 
-/-- **decode_preserves_leaves_of_naming** — `decode_preserves_leaves` with the distinctness of the declared
-    identifiers discharged from the naming assumptions. -/
-theorem decode_preserves_leaves_of_naming (S : Schema) (docs : List Doc) (out : Output)
+/-- **gen_wf_partial** — `gen_wf` with "the declared identifiers are pairwise distinct" as a
+    (decidable) hypothesis on the output instead of the naming assumptions. -/
+theorem gen_wf_partial (S : Schema) (docs : List Doc) (out : Output)
+    (hS : schemaOK S = true) (hec : enumValuesOK S = true)
+    (hgen : generate S docs = .ok out)
+    (hdocs : ∀ d ∈ docs.map (normalizeDoc S), ∀ df ∈ d.defs, defOK S (fragTypesOf d.defs) df = true)
+    (hnames : nodupB (out.decls.map Decl.name) = true) :
+    declsWF out.decls = true :=
+  gen_wf_partial_merged S _ out hS hec hgen hdocs hnames
+
+/-! ### Decoding the server's response -/
+
+/-- **decode_preserves_leaves_normalized** — for every schema, every run of the generator over
+    documents inside the envelope that produced output `out`, every named operation `name` of the run
+    with its selections `sels` as merged by fix 07, and every JSON value `data` that is a response to
+    it (`opLeaves … = some L`) whose objects have keys distinct ignoring letter case:
+    `json.Unmarshal(data, &v)` with `v : <name>Data` succeeds in the model of encoding/json over the
+    generated declarations and the decoded value holds every selected leaf — scalars, enum values,
+    nulls, empty lists, list items by index, and the fields of every type-conditioned fragment (inline
+    or named) whose type condition covers the object's `__typename` — at its path, with the value the
+    server sent. -/
+theorem decode_preserves_leaves_normalized (S : Schema) (docs : List Doc) (out : Output)
     (hS : schemaOK S = true)
     (hgen : generate S docs = .ok out)
-    (hdocs : ∀ d ∈ docs, ∀ df ∈ d.defs, defOK S (fragTypesOf d.defs) df = true)
+    (hdocs : ∀ d ∈ docs.map (normalizeDoc S), ∀ df ∈ d.defs, defOK S (fragTypesOf d.defs) df = true)
+    (hN : NamesHyp S (docNames docs)) (hnd : (docNames docs).Nodup)
+    (doc : Doc) (hdoc : doc ∈ docs.map (normalizeDoc S)) (kind : OpKind) (name : Name) (sels : List Sel)
+    (hop : Def.op kind (some name) sels ∈ doc.defs)
+    (root : Name) (hroot : rootOf S kind = some root)
+    (fuel : Nat) (data : Json) (L : List LeafAt)
+    (hL : opLeaves S (fragDefsOf doc.defs) fuel root sels data = some L)
+    (hkeys : data.keysOK = true) :
+    ∃ v, Decodes out.decls (.named (name ++ n_Data)) data v ∧ ∀ x ∈ L, x ∈ leavesV v :=
+  decode_preserves_leaves_of_naming_merged S _ out hS hgen hdocs
+    (by rw [docNames_normalize]; exact hN) (by rw [docNames_normalize]; exact hnd)
+    doc hdoc kind name sels hop root hroot fuel data L hL hkeys
+
+/-- **decode_preserves_leaves** — the property, for the operation *as written*: for every schema,
+    every run of the generator over documents inside the envelope that produced output `out`, every
+    named operation `name` of a document of the run with selections `sels`, and every JSON value `data`
+    that is a response to it (`opLeaves … = some L` on the original selections and the original
+    fragment definitions: the shape the selection demands, nulls only where the type allows them,
+    `__typename` naming a possible type, fragments unfolded to any depth `fuel`), whose objects have
+    keys distinct ignoring letter case: `json.Unmarshal(data, &v)` with `v : <name>Data` succeeds in the
+    model of encoding/json over the generated declarations, and the decoded value holds *every
+    selected leaf* of the response — scalars, enum values, nulls, empty lists, list items by index, and
+    the fields of every type-conditioned fragment (inline or named, also several inline fragments on
+    the same type — fix 07) whose type condition covers the object's `__typename` — at its path, with
+    the value the server sent.
+
+    The envelope hypotheses `hdocs` are decidable conditions on the documents as `generateType` sees
+    them (`normalizeDoc`). (The full statement `leaves v = leaves data` of DESIGN.md is restricted to
+    the *selected* leaves: a response object may carry members merged in from sibling fragments that
+    a given struct has no field for; they are held by the sibling's holder, which this theorem covers.) -/
+theorem decode_preserves_leaves (S : Schema) (docs : List Doc) (out : Output)
+    (hS : schemaOK S = true)
+    (hgen : generate S docs = .ok out)
+    (hdocs : ∀ d ∈ docs.map (normalizeDoc S), ∀ df ∈ d.defs, defOK S (fragTypesOf d.defs) df = true)
     (hN : NamesHyp S (docNames docs)) (hnd : (docNames docs).Nodup)
     (doc : Doc) (hdoc : doc ∈ docs) (kind : OpKind) (name : Name) (sels : List Sel)
     (hop : Def.op kind (some name) sels ∈ doc.defs)
@@ -250,9 +186,38 @@ theorem decode_preserves_leaves_of_naming (S : Schema) (docs : List Doc) (out : 
     (fuel : Nat) (data : Json) (L : List LeafAt)
     (hL : opLeaves S (fragDefsOf doc.defs) fuel root sels data = some L)
     (hkeys : data.keysOK = true) :
-    ∃ v, Decodes out.decls (.named (name ++ n_Data)) data v ∧ ∀ x ∈ L, x ∈ leavesV v :=
-  decode_preserves_leaves S docs out hS hgen hdocs (gen_names_unique S docs out hS hgen hdocs hN hnd)
-    doc hdoc kind name sels hop root hroot fuel data L hL hkeys
+    ∃ v, Decodes out.decls (.named (name ++ n_Data)) data v ∧ ∀ x ∈ L, x ∈ leavesV v := by
+  obtain ⟨td, L', hlk, hL', hsub⟩ := opLeaves_normalize doc.defs fuel root sels data L hL
+  have hop' : Def.op kind (some name) (normalize S (selsDepth sels + 1) td sels) ∈ (normalizeDoc S doc).defs := by
+    simp only [normalizeDoc]
+    refine List.mem_map.mpr ⟨_, hop, ?_⟩
+    simp [normalizeDef, hroot, hlk]
+  obtain ⟨v, hv, hcov⟩ := decode_preserves_leaves_normalized S docs out hS hgen hdocs hN hnd
+    (normalizeDoc S doc) (List.mem_map.mpr ⟨doc, hdoc, rfl⟩) kind name _ hop' root hroot fuel data L'
+    (by simpa [normalizeDoc] using hL') hkeys
+  exact ⟨v, hv, fun x hx => hcov x (hsub x hx)⟩
+
+/-- **enum_type_names_not_reserved** — the Go identifier of an enum type (fix 08) is never a Go keyword,
+    a predeclared identifier or `json`: a generated `type int string` can no longer shadow the `int`
+    the struct fields of GraphQL `Int` fields refer to, and `type type string` is no longer emitted.
+    (All other generated identifiers contain an upper-case letter or end in `Data`, `Fragment` or
+    `_<n>`, hence are never reserved; this is what makes the model's distinction between the built-in
+    types and `GoTy.named` faithful.) -/
+theorem enum_type_names_not_reserved (n : Name) : goReserved.contains (goTypeName n) = false := by
+  unfold goTypeName
+  by_cases h : goReserved.contains n = true
+  · simp only [h, if_true]
+    have hall : goReserved.all (fun r => !goReserved.contains (r ++ [95])) = true := by decide
+    have := List.all_eq_true.mp hall n (by simpa using h)
+    simpa using this
+  · have h' : goReserved.contains n = false := by simpa using h
+    rw [if_neg h]
+    exact h'
+
+/-- `type`, `int` and `json` are escaped, `Color` is not. -/
+example : goTypeName [116, 121, 112, 101] = [116, 121, 112, 101, 95] ∧ goTypeName [105, 110, 116] = [105, 110, 116, 95] ∧
+    goTypeName [106, 115, 111, 110] = [106, 115, 111, 110, 95] ∧ goTypeName [67, 111, 108, 111, 114] = [67, 111, 108, 111, 114] := by
+  decide
 
 /-- F-20g before fix 04, in the model: without a separator the names of the 11th sel type on `Node`
     and of the first one on `Node1` coincide; with the separator they differ. -/
@@ -313,8 +278,40 @@ example : NamesHyp S (docNames [doc]) where
   enumNoSel := by intro nm vs h; simp [S] at h
   tdNoSel := by decide
   enumNotTd := by intro nm vs h; simp [S] at h
+  enumEscInj := by intro nm vs nm' vs' h; simp [S] at h
 example : data.keysOK = true := by decide
 example : opLeaves S (fragDefsOf doc.defs) 1 Q sels data = some expected := by decide
+
+/-! The former findings F-20d and F-20e are inside the theorems' hypotheses now:
+    `query Q { u { __typename ... on A { x } a: __typename } }` (the key `a` and the holder of
+    `... on A` both want the Go name `A`; the holder becomes `A_`) and
+    `query Q { u { __typename ... on A { x } ... on A { z: x } } }` (merged into one holder). -/
+
+def docD : Doc := { valid := true, defs := [.op .query (some Q)
+  [.field none u [.field none n_typename [], .inline (some A) [.field none x []], .field (some [97]) n_typename []]]] }
+
+def docE : Doc := { valid := true, defs := [.op .query (some Q)
+  [.field none u [.field none n_typename [], .inline (some A) [.field none x []], .inline (some A) [.field (some [122]) x []]]]] }
+
+example : ((normalizeDoc S docD).defs.all (defOK S (fragTypesOf (normalizeDoc S docD).defs))) = true := by decide
+example : ((normalizeDoc S docE).defs.all (defOK S (fragTypesOf (normalizeDoc S docE).defs))) = true := by decide
+example : (match generate S [docD] with
+    | .ok out => declsWF out.decls
+    | .error _ => false) = true := by decide
+example : (match generate S [docE] with
+    | .ok out => declsWF out.decls
+    | .error _ => false) = true := by decide
+example : (normalizeDoc S docE).defs = [.op .query (some Q)
+    [.field none u [.field none n_typename [], .inline (some A) [.field none x [], .field (some [122]) x []]]]] := by rfl
+
+/-- The F-20e operation as written, a response to it, and the leaves it selects — both fragments'. -/
+def dataE : Json := .obj [.mk u (.obj [.mk n_typename (.str A), .mk x (.num true [49]), .mk [122] (.num true [49])])]
+
+example : dataE.keysOK = true := by decide
+example : (match docE.defs with
+    | [.op _ _ sels] => opLeaves S (fragDefsOf docE.defs) 0 Q sels dataE
+    | _ => none) =
+    some [([.key u, .key n_typename], .str A), ([.key u, .key x], .num [49]), ([.key u, .key [122]], .num [49])] := by decide
 
 end Example
 
